@@ -816,7 +816,17 @@ impl<'a, F: EvalComptimeFn> InferenceCtx<'a, F> {
                     None => break 'entry,
                 };
 
-                assert!(!self.world_bodies.has_polymorphic_body(entry_point.wrap()));
+                if self.world_bodies.has_polymorphic_body(entry_point.wrap()) {
+                    // nobody can supply the comptime arguments of the entry point
+                    self.diagnostics.push(TyDiagnostic {
+                        kind: TyDiagnosticKind::EntryHasParams,
+                        file: entry_point.file,
+                        expr: None,
+                        range: range.whole,
+                        help: None,
+                    });
+                    break 'entry;
+                }
                 let loc = entry_point.make_concrete(None).wrap();
 
                 let ty = self.tys.sig(loc);
